@@ -96,7 +96,7 @@ class Leaves:
                         return {('opaque', m)}
             b = self.body_of(path)
             if b is not None:
-                return self._ret_of({path}, 'value', depth, stack)
+                return self._ret_of({path}, 'value', depth, stack, subst=self._subst(fn, n, b), args=n[2])
             return {('extract', path, self._garg(fn, n), self.recv_root(n[2][0] if n[2] else frozenset()))}
         if k in ('binop', 'unop', 'cast'):
             return {('opaque', fmt_node(n)[:80])}
@@ -128,7 +128,27 @@ class Leaves:
             return g[-1] if g else ''
         return ''
 
-    def _ret_of(self, paths, mode, depth, stack):
+    def _call_term(self, fn, n):
+        site = n[3]
+        f = self.body_of(site[0]) if site[0] != fn.path else fn
+        if f is None:
+            return None
+        t = f.blocks[site[1]]['term']
+        return t if t['k'] == 'call' else None
+
+    def _subst(self, fn, n, callee_fn):
+        """generic parameter name of the callee -> generic argument at this call site (conversion calls inside a generic
+        helper, e.g. extract::<T>, are strict for the type the caller instantiates T with)"""
+        t = self._call_term(fn, n)
+        if t is None:
+            return None
+        gargs = t['func'].get('gargs', [])
+        gens = callee_fn.b.j.get('generics') or []
+        if len(gens) != len(gargs):
+            return None
+        return {g: a for g, a in zip(gens, gargs) if not g.startswith("'")}
+
+    def _ret_of(self, paths, mode, depth, stack, subst=None, args=None):
         out = set()
         for p in paths:
             if p in stack:
@@ -139,9 +159,27 @@ class Leaves:
                 continue
             rt = self.ret_terms(f)
             if mode == 'value':
-                out |= self.value(f, rt, depth + 1, stack + (p,))
+                res = self.value(f, rt, depth + 1, stack + (p,))
             else:
-                out |= self.payload(f, rt, depth + 1, stack + (p,))
+                res = self.payload(f, rt, depth + 1, stack + (p,))
+            if subst:
+                res = {(l[0], l[1], subst.get(l[2], l[2])) + tuple(l[3:]) if l[0] == 'extract' and len(l) > 2 else l for l in res}
+            if args is not None:
+                res2 = set()
+                for l in res:
+                    if l[0] == 'extract' and len(l) > 3 and any(r[0] == 'call' and isinstance(r[2], tuple) for r in l[3]):
+                        roots = set()
+                        for r in l[3]:
+                            if r[0] == 'call' and isinstance(r[2], tuple) and r[2][0] == 'param' and r[2][1] - 1 < len(args):
+                                a = args[r[2][1] - 1]
+                                names = [c[1].split('"')[1] for c in a if c[0] == 'const' and '"' in c[1]]
+                                roots.add(('call', r[1], names[0] if len(names) == 1 and len(a) == 1 else None))
+                            else:
+                                roots.add(r)
+                        l = (l[0], l[1], l[2], frozenset(roots))
+                    res2.add(l)
+                res = res2
+            out |= res
         return out
 
     # ---- payload of an Option/Result ------------------------------------------------------
@@ -210,7 +248,7 @@ class Leaves:
                         return self.payload(fn, args[0], depth + 1, stack)
             b = self.body_of(path)
             if b is not None:
-                return self._ret_of({path}, 'payload', depth, stack)
+                return self._ret_of({path}, 'payload', depth, stack, subst=self._subst(fn, n, b), args=n[2])
             return {('extract', path, self._garg(fn, n), self.recv_root(n[2][0] if n[2] else frozenset()))}
         if k == 'param':
             return {('param', n[2] or str(n[1]))}
@@ -262,6 +300,11 @@ class Leaves:
                         for c in a:
                             if c[0] == 'const' and '"' in c[1]:
                                 mname = c[1].split('"')[1]
+                    if mname is None and n[1].rsplit('::', 1)[-1].startswith('call_method'):
+                        # Py<T>::call_method*(self, py, name, ..) / Bound / PyAnyMethods::call_method*(self, name, ..)
+                        pos = 2 if n[1].startswith('pyo3::Py::<T>::') else 1
+                        if pos < len(n[2]) and len(n[2][pos]) == 1 and next(iter(n[2][pos]))[0] == 'param':
+                            mname = ('param', next(iter(n[2][pos]))[1])   # a parameter of this helper: resolved at its call sites
                     out.add(('call', n[1], mname))
             elif k == 'field':
                 out.add(('field', n[2]))
